@@ -1,4 +1,7 @@
 import FFVerif.Props.C02
+import FFVerif.Props.C13Prop
+import FFVerif.Props.C06Def
+import FFVerif.Props.C04Tile
 import FFVerif.Pins.pinDiagonalize
 import FFVerif.Pins.pinPropagatorAtArbT
 import FFVerif.Pins.pinConcatenate
@@ -46,6 +49,21 @@ import FFVerif.Pins.C02_source_shape
 #print axioms FFVerif.C02.propagatorAtArbT_is_exp
 #print axioms FFVerif.C02.propagatorAtArbT_hasDerivAt
 #print axioms FFVerif.C02.propagatorAtArbT_tendsto_right
+#print axioms FFVerif.C06Def.remapDef_times
+#print axioms FFVerif.C06Def.extendDef_times
+#print axioms FFVerif.C06Def.nDtOf_eq
+#print axioms FFVerif.C13.segment_propagator_unique
+#print axioms FFVerif.C13.piecewise_unique
+#print axioms FFVerif.C13.propagators_unique
+#print axioms FFVerif.C04Tile.times_concat
+#print axioms FFVerif.C04Tile.tau_concat
+#print axioms FFVerif.C04Tile.times_tile
+#print axioms FFVerif.C04Tile.tau_tileVec
+#print axioms FFVerif.C04Tile.propagators_concat
+#print axioms FFVerif.C04Tile.propagators_tile
+#print axioms FFVerif.C04Tile.propagators_tile_boundary
+#print axioms FFVerif.C04Tile.total_propagator_concat
+#print axioms FFVerif.C04Tile.total_propagator_tile
 #print axioms FFVerif.Pins.pinDiagonalize
 #print axioms FFVerif.Pins.pinPropagatorAtArbT
 #print axioms FFVerif.Pins.pinConcatenate
